@@ -668,4 +668,115 @@ theorem sumL_nonneg (l : List ℚ) (h : ∀ x ∈ l, 0 ≤ x) : 0 ≤ sumL l := 
     have := h a (by simp)
     simp only [List.sum_cons]; linarith
 
+/-- the interpolant of samples lying on a line is that line (inside the sampled range) -/
+theorem seg_linear (a b : ℚ) : ∀ (xs : List ℚ) (x : ℚ), StrictInc xs → 2 ≤ xs.length →
+    (∀ l, xs.getLast? = some l → x ≤ l) → seg xs (xs.map fun t => a * t + b) x = a * x + b := by
+  intro xs
+  induction xs with
+  | nil => intro x _ h; simp at h
+  | cons x0 xs ih =>
+    intro x hs h2 hl
+    cases xs with
+    | nil => simp at h2
+    | cons x1 rest =>
+      have h01 : x0 < x1 := (List.pairwise_cons.mp hs).1 x1 (by simp)
+      simp only [List.map_cons, seg]
+      by_cases hx1 : x ≤ x1
+      · simp only [hx1, if_true]
+        have hd : x1 - x0 ≠ 0 := by linarith [h01]
+        field_simp
+        ring
+      · simp only [hx1, if_false]
+        have hrest : rest ≠ [] := by
+          intro hr; subst hr
+          have := hl x1 (by simp); exact hx1 this
+        have := ih x (List.pairwise_cons.mp hs).2
+          (by cases rest with
+              | nil => exact absurd rfl hrest
+              | cons _ _ => simp)
+          (fun l hl' => hl l (by rw [List.getLast?_cons_cons]; exact hl'))
+        simpa using this
+
+theorem interpAt_linear (a b fl fr : ℚ) (xs : List ℚ) (x lo hi : ℚ) (hs : StrictInc xs) (h2 : 2 ≤ xs.length)
+    (hlo : xs.head? = some lo) (hhi : xs.getLast? = some hi) (h1 : lo ≤ x) (h3 : x ≤ hi) :
+    interpAt xs (xs.map fun t => a * t + b) fl fr x = a * x + b := by
+  unfold interpAt
+  simp only [hlo, hhi, not_lt.mpr h1, not_lt.mpr h3, if_false]
+  exact seg_linear a b xs x hs h2 (fun l hl => by rw [hhi] at hl; cases hl; exact h3)
+
+/-- exact integrals of the line a·λ + b over consecutive edges -/
+def exactBins (a b : ℚ) : List ℚ → List ℚ
+  | x0 :: x1 :: xs => (a * (x1 ^ 2 - x0 ^ 2) / 2 + b * (x1 - x0)) :: exactBins a b (x1 :: xs)
+  | _ => []
+
+theorem trapzBins_linear (a b : ℚ) : ∀ x : List ℚ, trapzBins x (x.map fun t => a * t + b) = exactBins a b x := by
+  intro x
+  induction x with
+  | nil => rfl
+  | cons x0 x ih =>
+    cases x with
+    | nil => rfl
+    | cons x1 xs =>
+      simp only [List.map_cons] at ih ⊢
+      simp only [trapzBins, exactBins, ih, Gen.trapzTerm]
+      congr 1
+      ring
+
+
+theorem simpsBins_nonneg_adj (x f : List ℚ) : adjLe x → (∀ v ∈ f, 0 ≤ v) → ∀ b ∈ simpsBins x f, 0 ≤ b := by
+  fun_induction simpsBins x f with
+  | case1 x0 x1 x2 xs f0 f1 f2 fs ih =>
+    intro hx hf b hb
+    simp only [List.mem_cons] at hb
+    rcases hb with rfl | hb
+    · have h01 := hx.1; have h12 := hx.2.1
+      have := hf f0 (by simp); have := hf f1 (by simp); have := hf f2 (by simp)
+      have : 0 ≤ x2 - x0 := by linarith
+      simp only [Gen.simpsTerm]
+      have hsum : 0 ≤ f0 + 4 * f1 + f2 := by linarith
+      exact mul_nonneg (div_nonneg this (by norm_num)) hsum
+    · exact ih hx.2.2 (fun v hv => hf v (by simp at hv ⊢; tauto)) b hb
+  | case2 x f h => intro _ _ b hb; simp at hb
+
+theorem adjLe_interleave : ∀ (c : List ℚ) (c0 e hiE : ℚ), StrictInc (c0 :: c) → e ≤ c0 →
+    (∀ l, (c0 :: c).getLast? = some l → l ≤ hiE) → adjLe (e :: interleave (c0 :: c) (midpoints (c0 :: c)) ++ [hiE]) := by
+  intro c
+  induction c with
+  | nil =>
+    intro c0 e hiE _ he hl
+    simp only [midpoints, interleave, List.cons_append, List.nil_append, adjLe]
+    exact ⟨he, hl c0 (by simp), trivial⟩
+  | cons c1 cs ih =>
+    intro c0 e hiE hs he hl
+    have h01 : c0 < c1 := (List.pairwise_cons.mp hs).1 c1 (by simp)
+    have hm0 : c0 ≤ Gen.binMid c0 c1 := by simp only [Gen.binMid]; linarith
+    have hm1 : Gen.binMid c0 c1 ≤ c1 := by simp only [Gen.binMid]; linarith
+    have := ih c1 (Gen.binMid c0 c1) hiE (List.pairwise_cons.mp hs).2 hm1
+      (fun l hl' => hl l (by rw [List.getLast?_cons_cons]; exact hl'))
+    simp only [midpoints, interleave, List.cons_append, adjLe] at this ⊢
+    exact ⟨he, hm0, this⟩
+
+theorem adjLe_simpsPoints_symmetric (c : List ℚ) (hs : StrictInc c) : adjLe (simpsPoints true c false) := by
+  unfold simpsPoints
+  match c, hs with
+  | [], _ => simp [adjLe]
+  | [c0], _ => simp [adjLe]
+  | c0 :: c1 :: cs, hs =>
+    cases hl : (c0 :: c1 :: cs).getLast? with
+    | none => simp [adjLe]
+    | some cl =>
+      cases hp : ((c0 :: c1 :: cs).dropLast).getLast? with
+      | none => simp [adjLe]
+      | some cp =>
+        have hlt := secondLast_lt_last _ cl cp hs hl hp
+        have h01 : c0 < c1 := (List.pairwise_cons.mp hs).1 c1 (by simp)
+        have hid : (midpoints (c0 :: c1 :: cs)).map (fun q : ℚ => if false = true then truncQ q else q) = midpoints (c0 :: c1 :: cs) := by simp
+        simp only [Bool.false_eq_true, if_false, if_true]
+        simp only [Bool.false_eq_true, if_false] at hid
+        rw [hid]
+        apply adjLe_interleave (c1 :: cs) c0 _ _ hs
+        · simp only [Gen.binEndLo]; linarith
+        · intro l hl'; rw [hl] at hl'; cases hl'; simp only [Gen.binEndHi]; linarith
+
+
 end Lentil.Spec
